@@ -4,7 +4,7 @@ premises).  Run time: FAULT ENUMERATION on the implementation (test support for 
 a record-aware man-in-the-middle between two socketpairs; the oracle is the property text."""
 from vlib import core
 
-WRAP = "-Wl,--wrap=tls_record_send,--wrap=tls_record_recv,--wrap=sm2_do_ecdh,--wrap=tls_pre_master_secret_generate,--wrap=tls_record_set_handshake_certificate,--wrap=hkdf_expand,--wrap=tls_uint24array_to_bytes"
+WRAP = "-Wl,--wrap=tls_record_send,--wrap=tls_record_recv,--wrap=sm2_do_ecdh,--wrap=tls_pre_master_secret_generate,--wrap=tls_record_set_handshake_certificate,--wrap=hkdf_expand,--wrap=tls_uint24array_to_bytes,--wrap=sm2_sign_finish"
 PROTOS = ["tlcp", "tls12", "tls13"]
 
 
@@ -16,8 +16,238 @@ def parse_layout(s):
     return [tuple(int(x, 16) if i == 2 else int(x) for i, x in enumerate(r.split(":"))) for r in s.split(",")] if s else []
 
 
+
+# ----------------------------------------------------------------------------- handshake message layer
+KNOWN_VERS = ["0101", "0200", "0300", "0301", "0302", "0303", "0304", "feff", "fefd"]
+KNOWN_CS = ["0000", "00c6", "00c7", "e011", "e051", "e013", "e053", "e015", "e055", "e017", "e057", "e019", "e059", "e01c", "e05a", "1301", "1302", "1303", "1304", "1305", "00ff"]
+KNOWN_CT = [1, 2, 3, 4, 5, 6, 20, 64, 65, 66, 67, 68, 80]
+GETTER = {"seths": "geths", "setch": "getch", "setsh": "getsh", "setcert": "getcert", "setske": "getske", "setckee": "getckee",
+          "setskp": "getskp", "setcr": "getcr", "setshd": "getshd", "setckp": "getckp", "setcv": "getcv", "setfin": "getfin"}
+TABLED = ("getcert", "getske", "getckee")
+
+
+def hx(b):
+    return b.hex() if b else "-"
+
+
+def codec_set_cases(ctx, r, certs, points):
+    """setters on structured random admissible fields and on the boundary lengths (0, 1, max, max + 1)"""
+    thorough = ctx.tier == "thorough"
+    cases = []
+    add = lambda l, c: cases.append((l, c))
+    rv = lambda: r.choice(KNOWN_VERS + ["0303", "0101", "0303"])
+    rnd32 = lambda: r.bytes(32).hex()
+    # generic
+    for ty in [0, 1, 2, 11, 12, 13, 14, 15, 16, 20, 22, 254, 7, 9, 10, 17, 255]:
+        add("seths %s %d %s" % (rv(), ty, hx(r.bytes(r.choice([0, 1, 5, 300])))), "seths:type-%s" % ("known" if ty in (0, 1, 2, 11, 12, 13, 14, 15, 16, 20, 22, 254) else "unknown"))
+    for n in (16379, 16380, 16381):
+        add("seths 0303 1 %s" % hx(r.bytes(n)), "seths:len-%s" % ("max" if n <= 16380 else "max+1"))
+    for v in ["0000", "0100", "0305", "0404", "ffff", "feff"]:
+        add("seths %s 1 00" % v, "seths:record-version-%s" % ("known" if v in KNOWN_VERS else "unknown"))
+    # ClientHello
+    for i in range(60 if not thorough else 400):
+        sid = r.choice([b"", b"", r.bytes(32)])
+        ncs = r.choice([1, 1, 2, 3, 21, 64])
+        cs = "".join(r.choice(KNOWN_CS) for _ in range(ncs))
+        pr = r.choice(KNOWN_VERS)
+        ex = r.choice([".", ".", hx(r.bytes(r.choice([1, 4, 60, 512])))])
+        add("setch %s %s %s %s %s %s" % (rv(), pr, rnd32(), hx(sid), cs, ex), "setch:%s:%s" % ("sid32" if sid else "nosid", "noexts" if ex == "." else ("exts" if int(pr, 16) >= 0x0303 else "exts-before-tls12")))
+    for sl in (1, 31, 33):
+        add("setch 0303 0303 %s %s e011 ." % (rnd32(), r.bytes(sl).hex()), "setch:sid-len-not-32")
+    add("setch 0303 0303 %s . . ." % rnd32(), "setch:no-ciphers")
+    add("setch 0303 0303 %s . %s ." % (rnd32(), "e011" * 64), "setch:ciphers-max")
+    add("setch 0303 0303 %s . %s ." % (rnd32(), "e011" * 65), "setch:ciphers-max+1")
+    add("setch 0303 0303 %s . e011abcd ." % rnd32(), "setch:unknown-cipher")
+    add("setch 0303 0999 %s . e011 ." % rnd32(), "setch:unknown-protocol")
+    add("setch 0303 0303 %s . e011 -" % rnd32(), "setch:exts-empty")
+    for n in (16338, 16339, 16340):       # body without exts = 2 + 32 + 1 + 2 + 2 + 2 = 41; 41 + 2 + n <= 16380
+        add("setch 0303 0303 %s . e011 %s" % (rnd32(), r.bytes(n).hex()), "setch:exts-%s" % ("max" if n <= 16337 else "around-max"))
+    add("setch 0303 0303 %s . e011 %s" % (rnd32(), r.bytes(16337).hex()), "setch:exts-max")
+    # ServerHello
+    for i in range(60 if not thorough else 400):
+        sid = r.choice([b"", r.bytes(1), r.bytes(31), r.bytes(32)])
+        pr = r.choice(KNOWN_VERS)
+        ex = r.choice([".", ".", hx(r.bytes(r.choice([1, 4, 60, 512]))), "-"])
+        add("setsh %s %s %s %s %s %s" % (rv(), pr, rnd32(), hx(sid), r.choice(KNOWN_CS), ex), "setsh:sid%s:%s" % ("0" if not sid else "n", "noexts" if ex == "." else ("exts" if int(pr, 16) >= 0x0303 else "exts-before-tls12")))
+    add("setsh 0303 0303 %s %s e011 ." % (rnd32(), r.bytes(33).hex()), "setsh:sid-max+1")
+    add("setsh 0303 0303 %s . abcd ." % rnd32(), "setsh:unknown-cipher")
+    add("setsh 0303 0777 %s . e011 ." % rnd32(), "setsh:unknown-protocol")
+    for n in (16339, 16340, 16341, 16342):  # 2 + 32 + 1 + 2 + 1 = 38; 38 + 2 + n <= 16380
+        add("setsh 0303 0303 %s . e011 %s" % (rnd32(), r.bytes(n).hex()), "setsh:exts-around-max")
+    # Certificate
+    for i in range(30 if not thorough else 200):
+        k = r.choice([1, 1, 2, 3, 5])
+        chain = [r.choice(certs) for _ in range(k)]
+        add("setcert %s %s *" % (rv(), ",".join(c.hex() for c in chain)), "setcert:n=%d" % min(k, 3))
+    add("setcert 0303 . *", "setcert:empty")
+    add("setcert 0303 %s *" % ",".join([certs[0].hex(), r.bytes(40).hex()]), "setcert:garbage-after-first")
+    big = []
+    while sum(3 + len(c) for c in big) + 3 <= 16380 + 600:
+        big.append(r.choice(certs))
+    for cut in (0, 1, 2):
+        ch = big[:len(big) - cut]
+        add("setcert 0303 %s *" % ",".join(c.hex() for c in ch), "setcert:total-%s" % ("over-max" if sum(3 + len(c) for c in ch) + 3 > 16380 else "below-max"))
+    # key exchange
+    for i in range(20):
+        sg = r.bytes(r.choice([1, 70, 71, 72]))
+        add("setske %s %d %s %s" % (rv(), r.choice([41, 41, 23, 29, 40, 0]), r.choice(points).hex(), sg.hex()), "setske:sig-ok")
+        add("setckee %s %s" % (rv(), r.choice(points).hex()), "setckee")
+        add("setskp %s %s" % (r.choice(["0101", "0101", "0303", "0304"]), sg.hex()), "setskp")
+        add("setcv %s %s" % (rv(), sg.hex()), "setcv")
+        add("setckp %s %s" % (rv(), r.bytes(r.choice([1, 100, 140, 16378])).hex()), "setckp")
+    for nm, op in (("setske", "setske 0303 41 %s" % points[0].hex()), ("setskp", "setskp 0101"), ("setcv", "setcv 0303")):
+        add("%s ." % op, nm + ":sig-empty"); add("%s %s" % (op, r.bytes(73).hex()), nm + ":sig-max+1")
+    add("setckp 0303 .", "setckp:empty"); add("setckp 0303 %s" % r.bytes(16379).hex(), "setckp:max+1")
+    # CertificateRequest
+    def names(k):
+        out = b""
+        for _ in range(k):
+            nm = r.bytes(r.choice([0, 1, 30, 120])); out += len(nm).to_bytes(2, "big") + nm
+        return out
+    for i in range(40 if not thorough else 200):
+        ty = bytes(r.choice(KNOWN_CT) for _ in range(r.choice([1, 1, 2, 5, 255])))
+        add("setcr %s %s %s" % (rv(), hx(ty), hx(names(r.choice([0, 1, 2, 5])))), "setcr:wellformed")
+    add("setcr 0303 . .", "setcr:no-types")
+    add("setcr 0303 %s -" % bytes([64] * 256).hex(), "setcr:types-256")
+    add("setcr 0303 %s -" % bytes([64] * 257).hex(), "setcr:types-257")
+    add("setcr 0303 4007 -", "setcr:unknown-type")
+    add("setcr 0303 40 0005aabb", "setcr:names-malformed")
+    for n in (16376, 16377, 16378):
+        add("setcr 0303 40 %s" % r.bytes(n).hex(), "setcr:names-around-max")
+    # ServerHelloDone, Finished
+    for v in KNOWN_VERS + ["0000", "0404"]:
+        add("setshd %s" % v, "setshd:%s" % ("known-version" if v in KNOWN_VERS else "unknown-version"))
+    for n in (0, 1, 11, 12, 13, 31, 32, 33, 48):
+        add("setfin %s %s" % (rv(), hx(r.bytes(n))), "setfin:len-%s" % ("ok" if n in (12, 32) else "bad"))
+    return cases
+
+
+def codec_mutations(ctx, r, op, rec):
+    """malformed neighbours of a valid record: always re-framed so that the bytes are 5 + declared length long,
+    except for two deliberately ill-framed ones (both sides then answer PRECONDITION)"""
+    out = []
+    b = bytearray(rec)
+    def frame(x):
+        x = bytearray(x); n = len(x) - 5
+        if 0 <= n < 65536:
+            x[3] = n >> 8; x[4] = n & 255
+        return bytes(x)
+    # record header
+    for pos, cls in ((0, "record-type"), (1, "record-version"), (2, "record-version")):
+        x = bytearray(b); x[pos] ^= 1 << r.below(8); out.append((bytes(x), "flip:" + cls))
+    x = bytearray(b); x[1:3] = bytes.fromhex(r.choice(KNOWN_VERS)); out.append((bytes(x), "other-known-record-version"))
+    # handshake header: type, and the 24-bit length off by one in both directions (record length kept consistent / not)
+    if len(b) >= 9:
+        x = bytearray(b); x[5] = r.choice([0, 1, 2, 11, 12, 13, 14, 15, 16, 20, 7, 99]); out.append((bytes(x), "hs-type"))
+        hl = int.from_bytes(b[6:9], "big")
+        for d in (-1, 1):
+            if 0 <= hl + d < 2**24:
+                x = bytearray(b); x[6:9] = (hl + d).to_bytes(3, "big"); out.append((bytes(x), "hs-length%+d" % d))
+        out.append((frame(bytes(b) + r.bytes(1)), "trailing-byte:record-length-adjusted"))
+        x = bytearray(bytes(b) + r.bytes(1)); x[6:9] = (hl + 1).to_bytes(3, "big"); out.append((frame(x), "trailing-byte:both-lengths-adjusted"))
+        if len(b) > 9:
+            out.append((frame(bytes(b[:-1])), "truncated:record-length-adjusted"))
+            x = bytearray(b[:-1]); x[6:9] = (hl - 1).to_bytes(3, "big"); out.append((frame(x), "truncated:both-lengths-adjusted"))
+        out.append((frame(bytes(b[:9])), "body-removed"))
+        x = bytearray(b[:9]); x[6:9] = b"\0\0\0"; out.append((frame(x), "empty-body"))
+        # inner bytes: flips at a few positions of the body, lengths re-framed
+        for _ in range(6):
+            if len(b) > 9:
+                pos = 9 + r.below(len(b) - 9)
+                x = bytearray(b); x[pos] ^= 1 << r.below(8); out.append((bytes(x), "flip:body"))
+        # insert / delete one body byte keeping both outer lengths consistent (inner vectors then overrun or leave bytes)
+        if len(b) > 10:
+            pos = 9 + r.below(len(b) - 9)
+            x = bytearray(b[:pos] + r.bytes(1) + b[pos:]); x[6:9] = (hl + 1).to_bytes(3, "big"); out.append((frame(x), "inserted-byte"))
+            x = bytearray(b[:pos] + b[pos + 1:]); x[6:9] = (hl - 1).to_bytes(3, "big"); out.append((frame(x), "deleted-byte"))
+    # ill-framed on purpose
+    out.append((bytes(b) + b"\0", "ill-framed:longer-than-declared"))
+    if len(b) > 5:
+        out.append((bytes(b[:-1]), "ill-framed:shorter-than-declared"))
+    return out
+
+
+def codec(ctx):
+    """differential run of the handshake message layer (Tls/HsCodec.v vs src/tls.c, tls12.c, tlcp.c)"""
+    import os
+    model, log = core.build_model("C10")
+    if model is None:
+        ctx.violation("codec:model-build", "extracted codec model does not build: " + log[-500:], {"kind": "correspondence", "log": log[-3000:]}, False); return
+    exe, log = core.build_harness("C10codec", "asan", sources=[os.path.join(core.ROOT, "props", "C10", "hscodec_harness.c")])
+    if exe is None:
+        core.harness_build_failed(ctx, log); return
+    r = core.Rng(ctx.seed * 7919 + 17)
+    # test data made by the library: certificates of several sizes, points
+    seeds = [(100 + i, f) for i, f in enumerate([0, 0, 1, 17, 64, 128])]
+    couts, _ = core.run_lines(exe, ["mkcert %d %d" % sf for sf in seeds] + ["mkpoint %s" % r.bytes(32).hex() for _ in range(6)], shards=1)
+    certs = [bytes.fromhex(o) for o in couts[:len(seeds)] if not o.startswith(("ERR", "FAULT"))]
+    points = [bytes.fromhex(o) for o in couts[len(seeds):] if not o.startswith(("ERR", "FAULT"))]
+    if len(certs) < 3 or len(points) < 3:
+        ctx.violation("codec:test-data", "could not generate certificates / points with the library", {"kind": "correspondence", "out": couts[:3]}, False); return
+    setc = codec_set_cases(ctx, r, certs, points)
+    # wave 1: setters (model decides with cert_ok = everything the library generated; fixed up below for garbage)
+    okcerts = ",".join(c.hex() for c in certs)
+    setc = [((l[:-1] + okcerts) if l.startswith("setcert ") else l, c) for (l, c) in setc]
+    mouts, _ = core.run_lines(model, [l for l, _ in setc])
+    # wave 2: getters on what the model's setters produced, and on their malformed neighbours, and on garbage
+    getc = []
+    for (l, c), o in zip(setc, mouts):
+        op = l.split(" ", 1)[0]
+        if o.startswith(("ERR", "UNFINISHED", "MODEL")):
+            continue
+        rec = bytes.fromhex(o)
+        g = GETTER[op]
+        tail = " *" if g in TABLED else ""
+        getc.append(("%s %s%s" % (g, o, tail), "%s:valid" % g))
+        if len(rec) <= 600 or r.chance(1, 6):
+            for (m, cls) in codec_mutations(ctx, r, op, rec):
+                getc.append(("%s %s%s" % (g, m.hex(), tail), "%s:%s" % (g, cls)))
+        # a record of one message type presented to another getter
+        g2 = r.choice(sorted(set(GETTER.values())))
+        getc.append(("%s %s%s" % (g2, o, " *" if g2 in TABLED else ""), "%s:other-message" % g2))
+    for g in sorted(set(GETTER.values())):
+        for n in [0, 1, 3, 4, 5, 10, 50, 300]:
+            body = r.bytes(n)
+            rec = bytes([22]) + bytes.fromhex(r.choice(KNOWN_VERS)) + len(body).to_bytes(2, "big") + body
+            getc.append(("%s %s%s" % (g, rec.hex(), " *" if g in TABLED else ""), "%s:garbage" % g))
+            if n >= 4:
+                hdr = bytes([r.choice([1, 2, 11, 12, 13, 14, 15, 16, 20])]) + (n - 4).to_bytes(3, "big")
+                rec = bytes([22, 3, 3]) + n.to_bytes(2, "big") + hdr + body[4:]
+                getc.append(("%s %s%s" % (g, rec.hex(), " *" if g in TABLED else ""), "%s:garbage-framed" % g))
+    # the byte strings cert_ok / point_ok will be asked about: first pass with "*", then ask the library
+    tabled = [i for i, (l, c) in enumerate(getc) if l.split(" ", 1)[0] in TABLED]
+    p1, _ = core.run_lines(model, [getc[i][0] for i in tabled])
+    ask = {}
+    for i, o in zip(tabled, p1):
+        ex = o.rsplit(" EXAMINED ", 1)[1] if " EXAMINED " in o else "."
+        for e in ([] if ex == "." else ex.split(",")):
+            ask[(getc[i][0].split(" ", 1)[0] == "getcert", e)] = None
+    keys = sorted(ask)
+    qouts, _ = core.run_lines(exe, [("certok %s" if k[0] else "pointok %s") % (k[1] if k[1] != "-" else "-") for k in keys]) if keys else ([], "")
+    for k, o in zip(keys, qouts):
+        ask[k] = (o == "1")
+    for i, o in zip(tabled, p1):
+        ex = o.rsplit(" EXAMINED ", 1)[1] if " EXAMINED " in o else "."
+        iscert = getc[i][0].split(" ", 1)[0] == "getcert"
+        ok = [e for e in ([] if ex == "." else ex.split(",")) if ask.get((iscert, e))]
+        getc[i] = (getc[i][0][:-1] + (",".join(ok) if ok else "."), getc[i][1])
+    # garbage handed to set_certificate: the model must be told that it is not a certificate
+    allcases = setc + getc
+
+    def oracle(line, a, b):
+        if a.startswith(("OVER-CAPACITY", "OUTSIDE")):
+            return "the function reported / returned data beyond the declared capacity: " + a[:60]
+        if a.startswith("SKIP"):
+            return None
+        return None if a == b else "implementation differs from the handshake codec model"
+    cases = [("codec " + l if False else l, "codec:" + c) for (l, c) in allcases]
+    core.differential(ctx, cases, exe, model, variant="asan", oracle=oracle)
+    ctx.notes.append("codec: %d setter cases, %d getter cases (%d with cert_ok / point_ok answered by the library)" % (len(setc), len(getc), len(tabled)))
+
+
 def run(ctx):
     ctx.check_proofs()
+    codec(ctx)
     exe, log = core.build_harness("C10", "asan", extra=WRAP)
     if exe is None:
         core.harness_build_failed(ctx, log)
